@@ -189,8 +189,13 @@ def real(op, args, kinds=None):
         if op == "set.eq":
             a = build(args[0], args[1])
             b = build(args[2], args[3])
-            e = a == b
-            ne = a != b
+            if kinds == "str-operand" and args[2].startswith("s:"):
+                other = core.dec(args[2][2:])          # `set == "string"` goes through SpecifierSet(str(other))
+                e = a == other
+                ne = a != other
+            else:
+                e = a == b
+                ne = a != b
             if ne == e:
                 return "eq-ne-inconsistent"
             return core.encb(e) + core.encb((not e) or hash(a) == hash(b))
